@@ -670,26 +670,34 @@ def _iterated_place(body, du, operand):
 
 
 def _enclosing_loop(F, body, du, blk, t):
-    """(header block of the innermost `next()`-driven loop around the call t in blk, its exit edges, iterated place) or None."""
+    """The innermost `next()`-driven loop around the call t in block blk, or None:
+    {'head': block of the next() call, 'entries': first blocks of an iteration (the Some side of the test of next()'s result),
+     'blocks': the blocks of the loop body, 'early': edges that leave the body other than through the header, 'set': iterated place}."""
     dom = body.dominators()
     after = body.reachable(t['to']) if t.get('to') is not None else set()
     heads = [(nb, nt) for nb, nt in Q.find_calls(body, _ITER_NEXT) if nb != blk and body.dominates(nb, blk) and nb in after]
     if not heads:
         return None
     nb, nt = max(heads, key=lambda h: len(dom[h[0]]))
-    # the switch on the Option that next() returned: its None edge leaves the loop
+    # the switch on the Option that next() returned: its None edge ends the loop, the other edges start an iteration
     sw = nt.get('to')
     for _ in range(4):
         if sw is None or body.term(sw)['k'] == 'switch':
             break
         s = body.succ(sw)
         sw = s[0] if len(s) == 1 else None
-    exits = set()
+    entries = set()
     if sw is not None and body.term(sw)['k'] == 'switch':
         ec = Q.edge_condition(F, body, du, sw)
         if ec is not None and ec[0]['k'] == 'discr' and ec[0]['pl'].get('l') == nt['dest']['l']:
-            exits = {(sw, tgt) for tgt, labs in ec[1].items() if ('variant', 'None') in labs and blk not in body.reachable(tgt, removed={nb})}
-    return nb, exits, _iterated_place(body, du, nt['a'][0])
+            entries = {tgt for tgt, labs in ec[1].items() if ('variant', 'Some') in labs}
+    inside = set()
+    for e in entries:
+        inside |= body.reachable(e, removed={nb})
+    blocks = {x for x in inside if nb in body.reachable(x)}
+    early = {(u, v) for u in blocks for v in body.succ(u) if v not in blocks and v != nb
+             and body.term(v)['k'] != 'unreachable'}
+    return {'head': nb, 'entries': entries & blocks, 'blocks': blocks, 'early': early, 'set': _iterated_place(body, du, nt['a'][0])}
 
 
 @RS.rule('C14.R10', 'K-PASS', 'simulated select(): every poll that returns Pending has registered the current waker with every watched '
@@ -705,19 +713,21 @@ def r10(cx):
                'has to be re-derived from the new wake-up protocol')
     cx.site('premise: %s empties the set with %s at %s' % (wk[0].root, pp.callee(emptied[0][1]).split('::')[-1], emptied[0][0].loc(emptied[0][1])))
     polls = [b for fn, b in sorted(F.bodies.items())
-             if fn.startswith(VSEL_MOD) and Q.re.search(r'\bSelect for .*VirtualSystem>::select\b|Future>::poll$', b.root if '{closure' in fn else fn)
-             and b.locals[0]['ty'].startswith('core::task::poll::Poll<')
+             if fn.startswith(VSEL_MOD) and b.locals[0]['ty'].startswith('core::task::poll::Poll<')
              and any('core::task::wake::Context' in b.locals[i]['ty'] for i in range(1, b.argc + 1))]
     cx.require(polls, 'no poll function (returns Poll, takes a Context) found in %s*' % VSEL_MOD)
     n_pending = 0
     for raw in polls:
         body = F.inlined(raw)
-        cx.fn(raw.fn)
         du = Q.DefUse(body)
         live = body.live_blocks()
         pend = [(b, s) for b, j, s in Q.find_aggregates(body, 'core::task::poll::Poll', 'Pending')
                 if s['lhs']['l'] == 0 and not s['lhs'].get('p') and b in live]
+        if not pend:
+            continue
+        cx.fn(raw.fn)
         n_pending += len(pend)
+        pend_blocks = {b for b, _ in pend}
         resume = {b for b, _ in Q.find_calls(body, _RESUME_WAKER)}
         ctxw = {b for b, _ in Q.find_calls(body, _CTX_WAKER)}
         watch = []
@@ -727,20 +737,26 @@ def r10(cx):
             cx.require(ready, 'the readiness test %s is not called in %s: the anchor of this rule is gone' % (ready_pats[0][3:], raw.fn))
             for b, t in ready:
                 lp = _enclosing_loop(F, body, du, b, t)
-                if lp is not None and lp[2] is not None:
-                    ready_sets.add(_json.dumps(lp[2], sort_keys=True))
+                if lp is not None and lp['set'] is not None:
+                    ready_sets.add(_json.dumps(lp['set'], sort_keys=True))
             cx.require(ready_sets, 'the set of descriptors tested with %s could not be identified in %s' % (ready_pats[0][3:], raw.fn))
-            through, exits, other = set(), set(), []
-            for b, t in Q.find_calls(body, reg_pats):
+            regs = Q.find_calls(body, reg_pats)
+            reg_blocks = {b for b, _ in regs}
+            through, flaws = set(), []
+            for b, t in regs:
                 lp = _enclosing_loop(F, body, du, b, t)
-                key = _json.dumps(lp[2], sort_keys=True) if lp is not None and lp[2] is not None else None
-                if lp is not None and key not in ready_sets:
-                    other.append((b, t))        # registers for some other collection than the one that is waited for
+                if lp is None:
+                    through.add(b)              # a single registration outside any loop: the call itself has to be passed
                     continue
-                through.add(b)
-                if lp is not None:
-                    exits |= lp[1]
-            watch.append((kind, through, exits, other))
+                if lp['set'] is None or _json.dumps(lp['set'], sort_keys=True) not in ready_sets:
+                    flaws.append('the registration at %s iterates another collection than the one tested for readiness' % body.loc(t))
+                elif not lp['entries'] or Q.must_pass(body, sorted(lp['entries']), reg_blocks, goal_blocks={lp['head']}) is not None:
+                    flaws.append('the loop at %s does not register on every iteration' % body.loc(body.term(lp['head'])))
+                elif any(pend_blocks & body.reachable(v) for u, v in lp['early']):
+                    flaws.append('the loop at %s can be left before all descriptors are visited' % body.loc(body.term(lp['head'])))
+                else:
+                    through.add(lp['head'])     # zero iterations (empty set) is the only way past the call
+            watch.append((kind, through, flaws))
         for pb, ps in pend:
             facts = []
             p = Q.must_pass(body, [0], ctxw, goal_blocks={pb})
@@ -752,24 +768,23 @@ def r10(cx):
             suspended = Q.must_pass(body, [0], resume, goal_blocks={pb}) is None
             if suspended:
                 facts.append('process stopped: waits for resumption only')
-            for kind, through, exits, other in watch:
+            for kind, through, flaws in watch:
                 if suspended:
                     continue
-                p = Q.must_pass(body, [0], through | resume, goal_blocks={pb}, removed_edges=exits)
+                p = Q.must_pass(body, [0], through | resume, goal_blocks={pb})
                 facts.append('%s wakers %s' % (kind, 're-registered on every path' if p is None else 'NOT re-registered on every path'))
                 if p is not None:
                     cx.violation(raw.root, 'pending-without-registration:%s' % kind, 'select() can return Poll::Pending on a path that does not '
-                                 'register its waker with the watched %ss on this poll%s: the pipe drops all registered wakers when it wakes '
+                                 'register its waker with every watched %s on this poll%s: the pipe drops all registered wakers when it wakes '
                                  'them (WakerSet::wake_all), and a woken process may find its descriptor still not ready (a writer needs '
                                  'PIPE_BUF bytes of room, the reader may have taken fewer) - after such a poll nobody wakes it again, a writer '
                                  'blocked on a full pipe sleeps for ever and the output beyond the pipe capacity never arrives'
-                                 % (kind, ' (the registration found iterates another collection than the one tested for readiness)' if other else ''),
-                                 loc=body.loc(ps), path=Q.render_path(body, p))
+                                 % (kind, ' (%s)' % '; '.join(flaws) if flaws else ''), loc=body.loc(ps), path=Q.render_path(body, p))
             cx.site('%s: return Poll::Pending at %s: %s' % (raw.fn, body.loc(ps), '; '.join(facts)))
     cx.require(n_pending >= 1, 'the simulated select() never returns Poll::Pending: the anchor of this rule is gone')
 
 
 RS.explanation += (' Added later: in the poll function of the simulated select() every path to a Poll::Pending return takes the current waker '
                    'and (unless the process is stopped and waits for resumption) passes the registration of that waker with every watched '
-                   'reader and writer descriptor, where only the end-of-iteration edge of the loop over the watched set may bypass the '
-                   'registration call - no state kept from an earlier poll may skip it, because WakerSet::wake_all empties the set (R10).')
+                   'reader and writer descriptor: the loop over the same set that was tested for readiness, registering on every iteration, '
+                   'with no early exit (an empty set is the only way past the call) - no state kept from an earlier poll may skip it, because WakerSet::wake_all empties the set (R10).')
